@@ -145,6 +145,23 @@ def _p1(ctx, g, x, root, fl):
                 FS.append((sid, e[1]))
                 break
     ctx.floor('P1a', len({x.site(s) for s, _ in FS}), 2, 'fullness tests (head-N == tail) in the send graph (%s)' % fl)
+    # the tail a send is re-tested against must be current: the scan result, the value a *failed*
+    # exchange observed, or a load -- never the pre-exchange value handed back by a successful CAS/swap
+    for sid, _op in FS:
+        e = g.strip(g.switch_expr(sid))
+        stale = []
+        for s_ in g.walk(e):
+            if s_[0] == 'dc' and s_[2] == 'Ok' and g.strip(s_[1])[0] == 'call':
+                c_ = x.rep(g.strip(s_[1])[1])
+                if c_ in x.atoms and x.atoms[c_].on('MultiQueue.tail_cache') and x.atoms[c_].op in CAS_OPS:
+                    stale.append(x.describe(c_))
+            if s_[0] == 'call' and x.rep(s_[1]) in x.atoms and x.atoms[x.rep(s_[1])].on('MultiQueue.tail_cache') and \
+                    x.atoms[x.rep(s_[1])].op in ('swap', 'fetch_add', 'fetch_sub', 'fetch_max', 'fetch_min'):
+                stale.append(x.describe(x.rep(s_[1])))
+        ctx.add('P1b', 'T-FLOW', g.nodes[sid].fn, not stale,
+                'the tail value a send is (re-)tested against is never the pre-exchange value of the cache' if not stale else
+                'fullness test uses the value a SUCCESSFUL exchange on the tail cache returned (%s): that is the stale pre-exchange tail, so a send is refused as Full although the scan just found room' % stale[0],
+                flavour=fl, where=g.where(sid), sub='fresh-value#i%d.bb%d' % (g.nodes[sid].inst, g.nodes[sid].bb))
     fs_nodes = x.expand_sites([s for s, _ in FS])
     notfull_edges = set()
     full_edges = set()
